@@ -284,6 +284,9 @@ impl Callbacks for Dump {
                             _ => String::new(),
                         };
                         let _ = write!(rec, ",\"k\":\"assert\",\"ak\":{},\"ot\":{},\"cond\":{}", esc(&kind), esc(&ot), esc(&operand_str(cond)));
+                        if let AssertKind::BoundsCheck { len, index } = &**msg {
+                            let _ = write!(rec, ",\"idx\":{},\"len\":{}", esc(&operand_str(index)), esc(&operand_str(len)));
+                        }
                     }
                     TerminatorKind::Drop { place, .. } => {
                         let pty = place.ty(&body.local_decls, tcx).ty;
@@ -375,7 +378,16 @@ impl Callbacks for Dump {
                     let _ = write!(lconsts, "\"{}\":{}", l, esc(r));
                 }
             }
-            let _ = write!(rec, "],\"writes\":[{}],\"aggs\":[{}],\"lc\":{{{}}}}}", writes, aggs, lconsts);
+            let mut names = String::new();
+            for vdi in body.var_debug_info.iter() {
+                if let mir::VarDebugInfoContents::Place(p) = &vdi.value {
+                    if !names.is_empty() {
+                        names.push(',');
+                    }
+                    let _ = write!(names, "[{},{},{}]", p.local.as_usize(), esc(&vdi.name.to_string()), !p.projection.is_empty());
+                }
+            }
+            let _ = write!(rec, "],\"writes\":[{}],\"aggs\":[{}],\"lc\":{{{}}},\"names\":[{}]}}", writes, aggs, lconsts, names);
             out.push_str(&rec);
             out.push('\n');
         }
@@ -419,6 +431,25 @@ impl Callbacks for Dump {
             rec.push_str("]}");
             out.push_str(&rec);
             out.push('\n');
+        }
+        for ldid in tcx.hir_crate_items(()).definitions() {
+            let did = ldid.to_def_id();
+            if !matches!(tcx.def_kind(did), DefKind::Static { .. }) {
+                continue;
+            }
+            let sty = tcx.type_of(did).instantiate_identity().skip_norm_wip();
+            let mut adts: Vec<String> = vec![];
+            for ga in sty.walk() {
+                if let Some(t) = ga.as_type() {
+                    if let ty::Adt(a, _) = t.kind() {
+                        adts.push(esc(&path_of(tcx, a.did())));
+                    }
+                }
+            }
+            adts.sort();
+            adts.dedup();
+            let l = loc(tcx, tcx.def_span(did));
+            let _ = writeln!(out, "{{\"t\":\"static\",\"path\":{},\"ty\":{},\"adts\":[{}],\"file\":{},\"line\":{}}}", esc(&path_of(tcx, did)), esc(&ty_str(sty)), adts.join(","), esc(&l.file), l.line);
         }
         let suffix = if is_test { "-test" } else if crate_types.iter().any(|t| t.contains("Executable")) { "-bin" } else { "" };
         let path = format!("{}/{}{}.jsonl", self.out_dir, krate, suffix);
